@@ -37,7 +37,12 @@ static void after(int ev, int w) {
     for (uint32_t i = 0; i < W.ntrace; i++) if (W.trace[i].kind == VF_T_SEND && W.trace[i].iface != want)
         vf_violation("isolation:sent-on-the-other-interface", "a frame received on interface %c made the responder transmit on interface %u (world %d)", 'A' + want, W.trace[i].iface, w);
 }
-static void seed_from_prefix(const int *p, int n, vf_snap **s) { (void)p; (void)n; vf_world_reset(); for (int k = 0; k <= NI; k++) s[k] = vf_snapshot(NULL, 0); }
+/* --a 3: every transmit is refused (in all worlds): error paths must not touch what the interfaces share (the heap) */
+static void seed_from_prefix(const int *p, int n, vf_snap **s) {
+    (void)p; (void)n; vf_world_reset();
+    if (A.a == 3) { W.fp.active = 1; W.fp.sticky_kind = VF_F_SEND; W.fp.sticky_from = 0; }
+    for (int k = 0; k <= NI; k++) s[k] = vf_snapshot(NULL, 0);
+}
 static e3_cfg c3 = { .nworlds = 3, .ev_name = sname, .pre_name = sname, .touches = touches, .apply = apply3, .after_apply = after, .sig_prefix = "isolation:interleaved-trace-differs-from-solo",
                      .sig_of = sig_of, .same_iface = 1, .seed_from_prefix = seed_from_prefix };
 
